@@ -23,7 +23,7 @@ ASSUMPTIONS = [
     "a value supplied for a non-settable parameter (constant, reserved, matching request) may be rejected or ignored (C08)",
     "requested vs decoded uses the value equivalence of DESIGN 2.5 (True == 1, 3.0 == 3, bytes == bytearray are equal)",
 ]
-MUST_HIT = ["mut:request-too-short", "mut:tablekey", "mut:tstruct", "minmax-sweep:A_UNICODE2STRING", "minmax-sweep:A_BYTEFIELD", "sweep:A_UINT32", "sweep:A_INT32:2C", "sweep:A_INT32:1C", "sweep:A_INT32:SM", "sweep:BCD", "outcome:rejected",
+MUST_HIT = ["mut:valid-assignment", "mut:request-too-short", "mut:tablekey", "mut:tstruct", "minmax-sweep:A_UNICODE2STRING", "minmax-sweep:A_BYTEFIELD", "sweep:A_UINT32", "sweep:A_INT32:2C", "sweep:A_INT32:1C", "sweep:A_INT32:SM", "sweep:BCD", "outcome:rejected",
             "outcome:accepted", "mut:int-out-of-range", "mut:struct-missing-required", "mut:struct-unknown-param",
             "mut:mux", "mut:bytes", "mut:str", "mut:wrong-type", "mut:list"]
 
@@ -300,6 +300,10 @@ def mutated_case():
     @st.composite
     def s(draw):
         base = draw(gen.message_case())
+        if draw(st.integers(0, 99)) < 12:
+            # the unmodified valid assignment: it is accepted, so the PDU must say what was asked for
+            return {"msg": base["msg"], "values": base["values"], "request": base["request"], "features": base["features"],
+                    "mutation": {"path": [], "kind": "none", "label": "valid-assignment"}}
         allsites = list(mutvals.sites(base["msg"]["params"], base["values"]))
         mrs = [p for p in base["msg"]["params"] if p["pk"] == "matchreq"]
         if mrs and base.get("request") is not None and draw(st.integers(0, 9)) < 3:
